@@ -4,8 +4,6 @@ CONSTANTS
   MaxOps = 1
   Universe = "quick"
 INVARIANT Commutative
-INVARIANT Associative
-INVARIANT Distributive
 INVARIANT Identities
 INVARIANT PowerLaws
 INVARIANT ShapeLaw
